@@ -171,6 +171,41 @@ theorem fireExc_cls (call : Call) : ∀ (ps : List Pending) (its : List Item),
         have := ih r (fun q hq' => hq q (by simp [hq'])) hr
         simp [hp, this]
 
+/-! ### clean-up runs deliver no answers -/
+
+theorem answersOf_append (a b : List Item) : answersOf (a ++ b) = answersOf a ++ answersOf b := by
+  induction a with
+  | nil => rfl
+  | cons x a ih => cases x <;> simp [answersOf, ih]
+
+theorem splitFirst_pre_no_answers : ∀ (l : List Item), answersOf (splitFirst l).1 = [] := by
+  intro l
+  induction l with
+  | nil => rfl
+  | cons x l ih => cases x <;> simp [splitFirst, answersOf, ih]
+
+theorem runClean_no_answers (call : Call) (σ : Subst) (c : Nat) (g : Term) :
+    answersOf (runClean call σ c g).items = [] := by
+  simp only [runClean]
+  split
+  · rfl
+  · have := splitFirst_pre_no_answers (call ⟨σ, c, true, []⟩ g).items
+    split <;> rename_i heq <;> simp only [heq] at this <;> exact this
+
+theorem fireCut_no_answers (call : Call) : ∀ (ps : List Pending) (σ : Subst) (c : Nat),
+    answersOf (fireCut call ps σ c).items = [] := by
+  intro ps
+  induction ps with
+  | nil => intro σ c; rfl
+  | cons p ps ih =>
+    intro σ c
+    simp only [fireCut]
+    split
+    · rfl
+    · split
+      · rfl
+      · simp [answersOf, answersOf_append, runClean_no_answers, ih]
+
 /-! ### the bookkeeping machine -/
 namespace Proto
 
@@ -358,6 +393,19 @@ theorem step_count (x : Nat) (s : PS) (o : Op) :
       simp only [List.count_append, List.count_nil, Nat.add_zero]
       rw [this, List.count_append]; omega
     · simp
+
+theorem count_eq_one_of_nodup : ∀ (l : List Nat), l.Nodup → ∀ x ∈ l, l.count x = 1 := by
+  intro l
+  induction l with
+  | nil => intro _ x hx; simp at hx
+  | cons a l ih =>
+    intro hn x hx
+    have hn' := List.nodup_cons.mp hn
+    rw [List.count_cons]
+    rcases List.mem_cons.mp hx with rfl | hx'
+    · simp [List.count_eq_zero_of_not_mem hn'.1]
+    · have : a ≠ x := fun h => hn'.1 (h ▸ hx')
+      simp [ih hn'.2 x hx', this]
 
 theorem installs_cons (o : Op) (os : List Op) : installs (o :: os) = installs [o] ++ installs os := by
   cases o <;> simp [installs]
